@@ -13,6 +13,7 @@ type InPort struct {
 	openHooks  OpenHooks
 	closeHooks CloseHooks
 	listeners  Listeners
+	done       bool
 	mu         sync.RWMutex
 }
 
@@ -122,6 +123,7 @@ func (p *InPort) Open(proc *process.Process) *packet.Reader {
 
 	openHooks := p.openHooks
 	listeners := p.listeners
+	done := p.done
 
 	p.mu.Unlock()
 
@@ -135,7 +137,16 @@ func (p *InPort) Open(proc *process.Process) *packet.Reader {
 	}))
 
 	openHooks.Open(proc)
-	go listeners.Accept(proc)
+	if done && len(listeners) == 0 {
+		// Nobody listens on a closed port any more: what is still written to it is dropped.
+		go func() {
+			for range reader.Read() {
+				reader.Receive(packet.New(packet.ErrDroppedPacket))
+			}
+		}()
+	} else {
+		go listeners.Accept(proc)
+	}
 
 	return reader
 }
@@ -151,6 +162,7 @@ func (p *InPort) Close() {
 	p.openHooks = nil
 	p.closeHooks = nil
 	p.listeners = nil
+	p.done = true
 
 	p.mu.Unlock()
 
